@@ -131,6 +131,7 @@ func geomTypeNames() []string {
 }
 
 func c09(p *core.Program, r *core.Report) {
+	sqrtSumOfSquaresRule(p, r, "length-no-underflow")
 	lastElemRule(p, r, "last-elem-guarded", 6, nil)
 	chainRule(p, r, "offset-chain", 12, nil)
 
